@@ -44,8 +44,8 @@ var Check = &run.Check{
 		"(called unqualified, this-qualified or class-qualified), other methods without @Test/@Ignore (also @Before/@After/... and annotations whose names merely end in Test / Ignore: @BeforeTest, @AfterTest, @JsonIgnore, @XmlIgnore, on helpers too) carrying the same patterns, and a static method other test classes call; in nested / Maven layouts 3 of 10 trees also hold two test classes of the SAME simple name in different packages, each with a helper of the same name (one asserting, one not) and a test that reaches an assertion only through it; " +
 		"test bodies are assembled from planted evidence in random order, each call recorded with its line: System.out.print/println/printf x0-7, Thread.sleep x0-5, two-argument calls with identical arguments x0-3 (assertions and plain calls), " +
 		"assertion methods of each of the seven documented prefixes (unqualified, receiver, static-qualified, chained, nested in arguments) with multiplicities 1-7 (4/5/6 emphasised), plain calls (also one plain method x5-7), " +
-		"look-alikes (System.err.println, System.out.flush/format, writer.println, timer.sleep, TimeUnit.SECONDS.sleep, Thread.yield), new expressions, commented-out evidence, blocks (if/for/try), two statements on a line, argument lists continued on the next line; " +
-		"bodies with no call, exactly one call, exactly two calls are drawn deliberately. Observed: TbsApp.AnalysisPath wired as cmd/tbs.go does; every Nth case `coca tbs -p DIR` (alternately with --sort): coca_reporter/tbs.json, the printed count and table. " +
+		"look-alikes (System.err.println, System.out.flush/format, writer.println, timer.sleep, TimeUnit.SECONDS.sleep, Thread.yield), new expressions, 1 file in 5 starts with 1-3 empty / white-space-only lines, commented-out evidence, blocks (if/for/try), two statements on a line, argument lists continued on the next line; " +
+		"bodies with no call, exactly one call, exactly two calls are drawn deliberately. Observed: TbsApp.AnalysisPath wired as cmd/tbs.go does; every Nth case the CLI in four configurations in turn (`coca tbs -p ABSDIR`, the same with --sort, `coca tbs -p .` and `coca tbs -p src/test/java` with the project directory as working directory; the relative ones mostly on Maven trees whose src/ is in the root and that hold a test class without the Test/Tests suffix): coca_reporter/tbs.json, the printed count and table. " +
 		"non-trivial = >= 1 test method with >= 2 different kinds of evidence and >= 1 method or file that must yield nothing; distinct = hash of the tree shape (layout, roles, annotation forms, per-method evidence multiset; no names or literals)",
 	Assumptions: []string{
 		"every generated file is accepted by coca's own Java parser (rejects are counted as inconclusive)",
@@ -80,7 +80,15 @@ func first(s string) string {
 }
 
 func runCase(c *run.Ctx, o *run.Outcome) {
-	t := testsmellgen.Generate(c.Rng)
+	// CLI slice: every Nth case; four configurations in turn: absolute root, absolute root --sort, the project
+	// directory as working directory with `-p .`, the same with `-p src/test/java`
+	useCLI := c.CocaBin != "" && c.Index%cliEvery(c.Tier) == 0
+	cliVariant := (c.Index / cliEvery(c.Tier)) % 4
+	var opt testsmellgen.Opts
+	if useCLI && (cliVariant == 3 || (cliVariant == 2 && (c.Index/cliEvery(c.Tier)/4)%2 == 0)) {
+		opt.MavenRoot = true // src/test/java directly below the working directory, with a class that is a test file by directory only
+	}
+	t := testsmellgen.GenerateWith(c.Rng, opt)
 	if err := testsmellgen.SelfCheck(t); err != nil {
 		o.SetInconclusive("generator self-check: " + err.Error())
 		return
@@ -112,7 +120,12 @@ func runCase(c *run.Ctx, o *run.Outcome) {
 		}
 	}
 	sort.Strings(plantedTestFiles)
-	relOf := func(name string) string { return absToRel[filepath.Clean(name)] }
+	relOf := func(name string) string {
+		if !filepath.IsAbs(name) {
+			name = filepath.Join(dir, name) // relative roots: the CLI runs with the project directory as working directory
+		}
+		return absToRel[filepath.Clean(name)]
+	}
 
 	// what the monitor is looking at
 	expected := oracle.TbsExpected(t)
@@ -120,6 +133,18 @@ func runCase(c *run.Ctx, o *run.Outcome) {
 	richMethod, mustBeSilent := false, false
 	for _, f := range t.Files {
 		o.Count("files_"+f.Role, 1)
+		if f.IsTest() && f.LeadingBlankLines > 0 {
+			o.Count("test_files_starting_with_blank_lines", 1)
+			for _, m := range f.Methods {
+				if m.IsTestMethod() {
+					for _, call := range m.Calls {
+						if call.Kind == testsmellgen.KindPrint || call.Kind == testsmellgen.KindSleep {
+							o.Count("print_sleep_calls_in_files_starting_with_blank_lines", 1)
+						}
+					}
+				}
+			}
+		}
 		if f.IsTest() {
 			if l := strings.ToLower(f.Class); strings.Contains(l, "testdata") {
 				o.Count("test_files_with_TestData_or_Testdata_in_class_name", 1)
@@ -215,17 +240,31 @@ func runCase(c *run.Ctx, o *run.Outcome) {
 	var observed []oracle.TbsFinding
 	witness := map[string]interface{}{"files": files, "layout": t.Layout, "expected": expectList(expected)}
 	o.Witness = witness
-	useCLI := c.CocaBin != "" && c.Index%cliEvery(c.Tier) == 0
 	if useCLI {
 		o.Count("cli_cases", 1)
-		sorted := (c.Index/cliEvery(c.Tier))%2 == 1
+		sorted := cliVariant == 1
+		cwd := c.Scratch() // fresh per case: `coca tbs` caches identifiers in coca_reporter/ below its working directory
 		args := []string{"tbs", "-p", dir}
-		if sorted {
+		switch cliVariant {
+		case 1:
 			args = append(args, "--sort")
 			o.Count("cli_cases_with_sort", 1)
+		case 2:
+			cwd, args = dir, []string{"tbs", "-p", "."}
+			o.Count("cli_cases_relative_root_dot", 1)
+		case 3:
+			cwd, args = dir, []string{"tbs", "-p", "src/test/java"}
+			o.Count("cli_cases_relative_root_src_test_java", 1)
 		}
-		witness["cli"] = strings.Join(args, " ")
-		res := common.RunCLI(c.CocaBin, c.Scratch(), nil, args...)
+		if cliVariant >= 2 {
+			for _, f := range t.Files {
+				if f.Role == testsmellgen.RoleTestByDir && strings.HasPrefix(f.RelPath, "src/test/java/") {
+					o.Count("cli_relative_root_test_files_by_directory_only", 1)
+				}
+			}
+		}
+		witness["cli"] = strings.Join(args, " ") + "   (cwd " + cwd + ")"
+		res := common.RunCLI(c.CocaBin, cwd, nil, args...)
 		if res.TimedOut {
 			o.SetInconclusive("cli watchdog")
 			return
@@ -234,7 +273,7 @@ func runCase(c *run.Ctx, o *run.Outcome) {
 			o.Violate("cli-crash", "`coca tbs` exit %d: %s", res.ExitCode, first(res.Stderr))
 			return
 		}
-		b, err := ioutil.ReadFile(filepath.Join(c.Scratch(), "coca_reporter", "tbs.json"))
+		b, err := ioutil.ReadFile(filepath.Join(cwd, "coca_reporter", "tbs.json"))
 		if err != nil {
 			o.Violate("cli-no-output", "`coca tbs` did not write coca_reporter/tbs.json: %v", err)
 			return
